@@ -21,7 +21,7 @@ from prng import Rng
 PROP = "C14"
 
 BUDGET = {
-    "quick": {"histories": 5, "edits": 6},
+    "quick": {"histories": 8, "edits": 6},
     "thorough": {"histories": 60, "edits": 8},
 }
 
@@ -50,6 +50,9 @@ AGGREGATES = {
     "dart": re.compile(r"^lib\.g\.dart$"),
     "nanobind": re.compile(r"^[A-Za-z0-9_]+_ext\.cpp$"),
     "demo_gen": re.compile(r"^js/index\.(mjs|d\.ts)$"),
+    # Lib.kt is Kotlin's library-wide file (library loader, helper classes for the slice / option / result shapes the
+    # whole library uses): an inserted type that brings a new shape adds a helper there
+    "kotlin": re.compile(r"(^|/)Lib\.kt$"),
 }
 
 ANSI = re.compile(r"\x1b\[[0-9;]*m")
@@ -84,7 +87,7 @@ class Ctx:
         os.makedirs(self.work)
         sd = sim_dir(self.repo)
         self.corpora = {}
-        for name, d in (("feature_tests", os.path.join(self.repo, "feature_tests")), ("example", os.path.join(self.repo, "example")), ("vbridge", os.path.join(sd, "rs", "vbridge"))):
+        for name, d in (("feature_tests", os.path.join(self.repo, "feature_tests")), ("example", os.path.join(self.repo, "example")), ("vbridge", os.path.join(sd, "rs", "vbridge")), ("shapes", os.path.join(sd, "proc", "shapes"))):
             entry = os.path.join(d, "src", "lib.rs")
             if not os.path.exists(entry):
                 continue
@@ -247,8 +250,10 @@ BASE_AMBIENT = {"entropy": 1, "clock": 1700000000, "pid": 4242, "host": "vsim-ho
 
 # (kind, name prefix = where the type sorts among the existing ones, target module: 0 any / 1000 last-by-path / 2000 first-by-path):
 # a short list of combinations that matter to backends which walk types in sorted order, cycled so that a batch covers them
-INSERT_PROFILES = [("opaque_impl", "Zz", 1000), ("opaque_impl", "Aa", 2000), ("trait", "Aa", 2000), ("struct", "", 0), ("trait", "Zz", 1000),
-                   ("enum", "", 0), ("opaque", "Zz", 1000), ("opaque_impl", "", 0)]
+# "opaque_uses" adds, to every original bridge module, an unreferenced opaque whose methods take that module's own types
+# (by value, behind &, inside Option): other *users* of existing types, generated before ("Aa") or after ("Zz") them
+INSERT_PROFILES = [("opaque_impl", "Zz", 1000), ("opaque_impl", "Aa", 2000), ("trait", "Aa", 2000), ("struct", "", 0), ("opaque_uses", "Aa", 0),
+                   ("trait", "Zz", 1000), ("enum", "", 0), ("opaque_uses", "Zz", 0), ("opaque", "Zz", 1000), ("opaque_impl", "", 0), ("opaque_uses", "", 0)]
 
 
 def insert_edit(rng, inserted, hidx, i, profile):
@@ -310,6 +315,11 @@ def compare(ctx, backend, before, after, oracle, edit):
     if edit.startswith("insert_shadow_module") and before["rc"] == 0 and after["rc"] != 0:
         # backends that do not render renames reject (or collide on) a same-named type: not this property's subject
         ctx.inc("shadow_module_rejected_by_backend")
+        return None
+    if edit.startswith("insert_type:") and ":opaque_uses:" in edit and before["rc"] == 0 and after["rc"] != 0:
+        # the inserted type uses existing types in ways this backend (or this type's attributes) may not allow:
+        # then it simply is not an accepted module for this backend, and there is nothing to compare
+        ctx.inc("inserted_user_type_rejected_by_backend:" + backend[0].split("-")[0])
         return None
     if before["rc"] != after["rc"]:
         return {"what": "exit status %d vs %d" % (before["rc"], after["rc"])}
